@@ -601,13 +601,20 @@ pub fn run_history(history: &History, cfg: &RunCfg, shim: &Shim) -> RunReport {
                 if got_meta != meta {
                     d.push(format!("returned metadata {got_meta:?}, on disk {meta:?}"));
                 }
-                let (ed, _) = env_diff(got_env, env, mix, &model.abs(&model.ldir(l)));
+                let (ed, only_implicit) = env_diff(got_env, env, mix, &model.abs(&model.ldir(l)));
+                let env_only = d.is_empty();
                 if !ed.is_empty() {
                     d.push("returned environment differs from what is on disk".into());
                     d.extend(ed);
                 }
                 if !d.is_empty() {
-                    viol = Some((result_props("C02"), "I-result".into(), d));
+                    let mut props = result_props("C02");
+                    // the environment a request returns is a read of the layer's environment:
+                    // missing or wrong implicit entries there also count against C10
+                    if env_only && only_implicit && !props.contains(&"C10".to_string()) {
+                        props.push("C10".into());
+                    }
+                    viol = Some((props, "I-result".into(), d));
                 }
             }
             (ExpResult::EnvRead(want), Observed::EnvRead(got)) => {
